@@ -87,6 +87,16 @@ def run_case(ctx, mr, case):
         fail('write-accepted', 'write() was accepted by the read-only wrapper', 'an error', 'accepted')
     except Exception:
         pass
+    # every other way the file API has of changing a file: whatever the wrapper answers, the underlying file stays as it was
+    for name, args in (('truncate', ()), ('truncate', (max(0, sz // 2),)), ('truncate', (sz + 16,)), ('writelines', ([b'xy'],))):
+        try:
+            getattr(v, name)(*args)
+        except Exception:
+            pass
+    try:
+        v.flush()
+    except Exception as ex:
+        fail('flush-raises', 'flush() raised', None, pyenv.errname(ex))
     if LoggedBytesIO.writes or bio.getvalue() != base:
         fail('wrote-underlying', 'the wrapper wrote to the underlying file', 'no writes', LoggedBytesIO.writes)
     line = (f'cbc {case["kind"]} {zhex(off)} {zhex(sz)} h:{case["key"]} h:{case["iv"]} h:{case["base"]} '
